@@ -34,12 +34,6 @@ fn check_text(s: &mut Suite, kind: &str, label: &str, der: &[u8], text: &str) {
 
 /// `pem::parse` against the model of it (Model/PemParse.lean): label and contents, or the kind of error
 fn pem_parse_tie(s: &mut Suite, text: &str) {
-	// (the model's matcher is a list program, quadratic in the text: texts beyond 24 KiB are
-	// left to the strict decoder, the pem crate and the loaders themselves)
-	if text.len() > 24 * 1024 {
-		s.rep.count("pem_parse_tie_skipped_large_text");
-		return;
-	}
 	let real = match std::panic::catch_unwind(|| pem::parse(text)) {
 		Ok(Ok(p)) => tagged("ok", &[hex(p.tag().as_bytes()), hex(p.contents())]),
 		Ok(Err(e)) => tagged("err", &[match e {
@@ -259,6 +253,11 @@ pub fn run(ctx: &mut Ctx) -> Report {
 			let der = k.serialize_der();
 			check_text(&mut s, "privateKey", "PRIVATE KEY", &der, &text);
 			s.rep.count(&format!("private_key_text:{}", origin.split(':').next().unwrap()));
+			let model = s.drv.ask(&format!("key-text held {}", hex(&der)));
+			let real = list(&[tagged("ok", &[hex(&der)]), tagged("ok", &[hex(text.as_bytes())])]);
+			if real != model {
+				s.rep.disagree("C14:key-text", "model and implementation differ on the private-key accessors", format!("key={} (text withheld)", origin));
+			}
 			let alg = k.algorithm();
 			let loads: Vec<(&str, Result<KeyPair, Error>)> = vec![
 				("from_pem", KeyPair::from_pem(&text)),
@@ -329,6 +328,13 @@ request with {} alternative names, text of {} octets: {}", e, n, text.len(), hex
 		let der = std::panic::catch_unwind(std::panic::AssertUnwindSafe(|| k.serialize_der()));
 		let text = std::panic::catch_unwind(std::panic::AssertUnwindSafe(|| k.serialize_pem()));
 		s.rep.case("serialize_pem / serialize_der of a remote key", true);
+		// model: KeyHolder.serializeDer / serializePem (both the announced panic for a remote key)
+		let show = |r: &std::thread::Result<Vec<u8>>| match r { Ok(b) => tagged("ok", &[hex(b)]), Err(_) => "panic".to_string() };
+		let real = list(&[show(&der), show(&text.as_ref().map(|t| t.as_bytes().to_vec()).map_err(|_| Box::new(()) as Box<dyn std::any::Any + Send>))]);
+		let model = s.drv.ask("key-text remote x");
+		if real != model {
+			s.rep.disagree("C14:key-text", "model and implementation differ on the private-key accessors of a remote key", format!("real:  {}\nmodel: {}", real, model));
+		}
 		match (der, text) {
 			(Err(_), Err(_)) => s.rep.count("remote_key_text_refused"),
 			(Ok(d), Ok(t)) => check_text(&mut s, "privateKey", "PRIVATE KEY", &d, &t),
